@@ -3,8 +3,9 @@
    harness/src/bin/sampler.rs) and prints one verdict per case:
      <id> OK | <id> PROPFAIL <why> | <id> DIFF <why>
 
-   PROPFAIL (decided by the checkers extracted from Coq: check_state (binary32 instance),
-   check_iteration; check_state_sound in SamplerProofs.v):
+   PROPFAIL (decided on the implementation's observations alone by the whole-trace checker
+   check_C16 extracted from Coq (binary32 instance; C16.v: check_C16_sound / _complete);
+   its components check_state / check_iteration / check_range ... only supply the detail):
      - a reported state (after construction / after a next()) whose count matrix is
        not the recomputation from the reported active set and start positions, whose
        background frequencies are not the normalised recomputed background counts
@@ -135,9 +136,9 @@ let () =
           (* observation *)
           let parts = String.split_on_char '|' obs in
           let (hdr, recs) = match parts with
-            | kf :: cnt :: sym :: rr :: recs -> ((kf, cnt, sym, rr), recs)
+            | kf :: cnt :: sym :: rr :: wts :: recs -> ((kf, cnt, sym, rr, wts), recs)
             | _ -> raise (Bad "bad observation") in
-          let (kf, cnt, sym, rr) = hdr in
+          let (kf, cnt, sym, rr, wts) = hdr in
           if kf <> "K=" ^ string_of_int k then diff ("alphabet-size " ^ kf);
           (* model assumptions about the data set: cached counts and indexing *)
           let exp_cnt = String.concat "/" (List.map (fun c -> show_ints (List.map int_of_n c)) (sampler_data_counts kn data)) in
@@ -147,6 +148,8 @@ let () =
           let exp_sym = if exp_sym = "" then "-" else exp_sym in
           if sym <> "sym=" ^ exp_sym then diff "index-of-striped-sequence";
           if rr <> "rerun=same" then propfail ("nondeterministic-trace " ^ rr);
+          (* model assumption about the choices: the new start is drawn among len - width + 1 weights *)
+          if wts <> "wts=ok" then diff ("weights-not-over-exactly-the-valid-start-positions " ^ wts);
           (* model construction *)
           let construct starts0 seeds0 =
             if get "api" = "new" then sampler_new kn wn data wraps starts0
@@ -164,7 +167,7 @@ let () =
             end in
           let zoops_eff = zoops && get "api" <> "new" in
           (* check one reported state against the property (extracted checkers) *)
-          let check_reported tag (r : rstate) =
+          let check_reported ~detail tag (r : rstate) =
             match report_of_rstate nseq r with
             | None ->
                 if List.length r.astarts <> List.length r.active then propfail (tag ^ " active_starts-length")
@@ -172,7 +175,7 @@ let () =
                 None
             | Some rep ->
                 if List.exists (fun i -> i < 0 || i >= nseq) r.active then propfail (tag ^ " active-index-out-of-range")
-                else if not (check_state_f32 kn wn data rep) then begin
+                else if detail && not (check_state_f32 kn wn data rep) then begin
                   let why =
                     if not (check_range wn data rep) then "start-out-of-range"
                     else if not (check_motif kn wn data rep) then
@@ -209,7 +212,53 @@ let () =
                let r0 = (match String.split_on_char ';' first with
                    | "I" :: st -> parse_state st
                    | _ -> raise (Bad "first record is not I")) in
-               ignore (check_reported "init" r0);
+               (* ---- pass 1: the property, on the implementation's observations alone ----
+                  component checkers give the detail; the verdict is the extracted, proved-sound
+                  whole-trace checker check_C16 (C16.v: check_C16_sound / check_C16_complete) *)
+               let parsed = List.filter_map (fun r ->
+                   match String.split_on_char ';' r with
+                   | "S" :: z :: step :: itn :: itc :: stf -> Some (int_of_string z, int_of_string step, itn, itc, parse_state stf)
+                   | ["E"] | ["P"] -> None
+                   | _ -> raise (Bad ("bad record " ^ r))) rest in
+               (* detail=false: only build the reports (and the structural checks on the observation);
+                  detail=true: also run the component checkers to name the first failing clause *)
+               let pass1 ~detail =
+                 let init_rep = check_reported ~detail "init" r0 in
+                 let all_parsed = ref (init_rep <> None) in
+                 let osteps = ref [] in
+                 let prev = ref r0 in
+                 List.iteri (fun idx (z, step, itn, itc, cur) ->
+                     let tag = Printf.sprintf "step%d" idx in
+                     if detail && step <> idx then propfail (tag ^ " iteration-step-number " ^ string_of_int step);
+                     if z < 0 || z >= nseq then begin propfail (tag ^ " hold-out-index-out-of-range"); all_parsed := false end
+                     else begin
+                       let it = { it_counts = parse_cm itc; it_n = n_of_int (int_of_string itn);
+                                  it_z = nat_of_int z; it_step = n_of_int step } in
+                       let rep = check_reported ~detail tag cur in
+                       (* Iteration.counts: the alignment without z, before and after the call *)
+                       (match rep with
+                        | Some rep ->
+                            osteps := { o_it = it; o_rep = rep } :: !osteps;
+                            if detail && not (check_iteration kn wn data rep.r_active rep.r_starts it) then
+                              propfail (tag ^ " iteration-counts-differ-from-alignment-without-z(after) expected "
+                                        ^ show_cm (recompute_motif kn wn data (upd it.it_z false rep.r_active) rep.r_starts) ^ " got " ^ itc)
+                        | None -> all_parsed := false);
+                       (match report_of_rstate nseq !prev with
+                        | Some prep ->
+                            if detail && not (check_iteration kn wn data prep.r_active prep.r_starts it) then
+                              propfail (tag ^ " iteration-counts-differ-from-alignment-without-z(before) got " ^ itc)
+                        | None -> ())
+                     end;
+                     prev := cur) parsed;
+                 (init_rep, !all_parsed, List.rev !osteps) in
+               (match pass1 ~detail:false with
+                | (Some ir, true, os) ->
+                    if not (check_C16_f32 kn wn data ir os) then begin
+                      ignore (pass1 ~detail:true);
+                      propfail "check_C16"   (* only if no component named the failure *)
+                    end
+                | _ -> ignore (pass1 ~detail:true));
+               (* ---- pass 2: correspondence, the model replayed with the choices read off the trace ---- *)
                let starts0 = List.map nat_of_int r0.starts in
                let seeds0 = if zoops_eff then List.map nat_of_int r0.active else [] in
                (match construct starts0 seeds0 with
@@ -229,48 +278,29 @@ let () =
                             diff (Printf.sprintf "step%d panic-not-explained-by-the-model" idx)
                       | r :: rest ->
                           (match String.split_on_char ';' r with
-                           | "S" :: z :: step :: itn :: itc :: stf ->
+                           | "S" :: z :: _step :: itn :: itc :: stf ->
                                let tag = Printf.sprintf "step%d" idx in
                                let cur = parse_state stf in
                                let z = int_of_string z in
-                               if int_of_string step <> idx then propfail (tag ^ " iteration-step-number " ^ step);
-                               if z < 0 || z >= nseq then propfail (tag ^ " hold-out-index-out-of-range")
-                               else begin
-                                 let it = { it_counts = parse_cm itc; it_n = n_of_int (int_of_string itn);
-                                            it_z = nat_of_int z; it_step = n_of_int (int_of_string step) } in
-                                 let rep = check_reported tag cur in
-                                 (* Iteration.counts: the alignment without z, before and after the call *)
-                                 (match rep with
-                                  | Some rep ->
-                                      if not (check_iteration kn wn data rep.r_active rep.r_starts it) then
-                                        propfail (tag ^ " iteration-counts-differ-from-alignment-without-z(after) expected "
-                                                  ^ show_cm (recompute_motif kn wn data (upd it.it_z false rep.r_active) rep.r_starts) ^ " got " ^ itc)
-                                  | None -> ());
-                                 (match report_of_rstate nseq prev with
-                                  | Some prep ->
-                                      if not (check_iteration kn wn data prep.r_active prep.r_starts it) then
-                                        propfail (tag ^ " iteration-counts-differ-from-alignment-without-z(before) got " ^ itc)
-                                  | None -> ());
-                                 (* replay the model with the choice read off the trace *)
-                                 if List.length cur.starts = nseq && List.length prev.starts = nseq then begin
-                                   let s_new = List.nth cur.starts z and s_old = List.nth prev.starts z in
-                                   let ch = { ch_z = nat_of_int z;
-                                              ch_upd = (if s_new = s_old then UKeep else UNew (nat_of_int s_new));
-                                              ch_accept = List.mem z cur.active } in
-                                   (match next c st ch with
-                                    | Ok (st', Some mit) ->
-                                        same_state tag st' cur;
-                                        if show_cm mit.it_counts <> itc then diff (tag ^ " iteration-counts model " ^ show_cm mit.it_counts ^ " impl " ^ itc)
-                                        else if int_of_n mit.it_n <> int_of_n it.it_n then diff (tag ^ " iteration-sequence-count")
-                                        else if int_of_n mit.it_step <> idx then diff (tag ^ " model-step-number")
-                                        else if int_of_n st'.st_step <> idx + 1 then diff (tag ^ " model-step-counter");
-                                        walk (idx + 1) st' cur rest
-                                    | Ok (_, None) -> diff (tag ^ " model-converged-implementation-did-not")
-                                    | Panic s -> diff (Printf.sprintf "%s model-panics-site-%d" tag (int_of_nat s))
-                                    | Err e -> diff (Printf.sprintf "%s choice-impossible-for-the-model-code-%d" tag (int_of_nat e))
-                                    | OutOfFuel -> diff (tag ^ " model-out-of-fuel"))
-                                 end else diff (tag ^ " verif_starts-length")
-                               end
+                               if z < 0 || z >= nseq then diff (tag ^ " hold-out-index-out-of-range")
+                               else if List.length cur.starts = nseq && List.length prev.starts = nseq then begin
+                                 let s_new = List.nth cur.starts z and s_old = List.nth prev.starts z in
+                                 let ch = { ch_z = nat_of_int z;
+                                            ch_upd = (if s_new = s_old then UKeep else UNew (nat_of_int s_new));
+                                            ch_accept = List.mem z cur.active } in
+                                 (match next c st ch with
+                                  | Ok (st', Some mit) ->
+                                      same_state tag st' cur;
+                                      if show_cm mit.it_counts <> itc then diff (tag ^ " iteration-counts model " ^ show_cm mit.it_counts ^ " impl " ^ itc)
+                                      else if string_of_int (int_of_n mit.it_n) <> itn then diff (tag ^ " iteration-sequence-count")
+                                      else if int_of_n mit.it_step <> idx then diff (tag ^ " model-step-number")
+                                      else if int_of_n st'.st_step <> idx + 1 then diff (tag ^ " model-step-counter");
+                                      walk (idx + 1) st' cur rest
+                                  | Ok (_, None) -> diff (tag ^ " model-converged-implementation-did-not")
+                                  | Panic s -> diff (Printf.sprintf "%s model-panics-site-%d" tag (int_of_nat s))
+                                  | Err e -> diff (Printf.sprintf "%s choice-impossible-for-the-model-code-%d" tag (int_of_nat e))
+                                  | OutOfFuel -> diff (tag ^ " model-out-of-fuel"))
+                               end else diff (tag ^ " verif_starts-length")
                            | _ -> raise (Bad ("bad record " ^ r)))
                     in
                     walk 0 st0 r0 rest
